@@ -28,7 +28,7 @@ built=full
 }
 checks="$prop"
 # session-history defects filed under C10 by their authors are owned by C14 (see DESIGN.md 8.6)
-case "$id" in C10-4|C10-7|C10-8) checks="C10 C14";; esac
+case "$id" in C10-4|C10-7|C10-8|C10-11) checks="C10 C14";; esac
 # the same source change as C01-7, filed under C08 by its author: replacing typeof of a constant by the literal type is
 # not one of the rewrites C08 lists, the change is a membership defect owned by C01 (see its meta.json)
 case "$id" in C08-7) checks="C08 C01";; esac
